@@ -116,7 +116,7 @@ def gen_constraint(ch: Choices, model: dict, alg: str, opts: dict) -> Optional[l
         k = small_int(ch, lo - 1, hi + 1, "const")
         return [vs, alg, coefs + [k]]
     if alg == "alldifferent":
-        n = arity(2, 5)
+        n = arity(2, max(5, opts.get("max_arity", 4)))
         if n is None:
             return None
         return [pick_vars(ch, model, n, alias), alg, []]
@@ -198,7 +198,7 @@ def gen_constraint(ch: Choices, model: dict, alg: str, opts: dict) -> Optional[l
                 params.append(small_int(ch, lo - (1 if ch.chance(1, 5, "rel.out") else 0), hi, "rel.val"))
         return [vs, alg, params]
     if alg == "gcc":
-        n = arity(1, 5)
+        n = arity(1, max(5, opts.get("max_arity", 4)))
         if n is None:
             return None
         vs = pick_vars(ch, model, n, alias)
